@@ -10,6 +10,7 @@ import (
 	"errors"
 	"io"
 
+	"mellium.im/xmlstream"
 	"mellium.im/xmpp/stream"
 )
 
@@ -59,7 +60,10 @@ func (r *reader) Token() (xml.Token, error) {
 		switch t.Name.Local {
 		case "error":
 			e := stream.Error{}
-			err = xml.NewTokenDecoder(r.r).DecodeElement(&e, &t)
+			// Hand the start token back so that the decoder sees the whole
+			// element (a fresh token decoder cannot decode into an
+			// xml.Unmarshaler from a start element it has not read itself).
+			err = xml.NewTokenDecoder(xmlstream.MultiReader(xmlstream.Token(t), r.r)).Decode(&e)
 			if err != nil {
 				return nil, err
 			}
